@@ -254,6 +254,7 @@ let call_fn (id : n) (args : value list) : fres =
   | 10, [] -> FBadSecond
   | 11, [] -> FBadCount
   | 12, [VBool bb] -> if bb then FErrS (n_of_int 2) else FOk (VStr (str_of_ascii "ok"))
+  | 13, [VStruct (_, _) as recv] -> (match field_of recv "Name" with Some x -> FOk x | None -> FBadArgs)
   | 20, [recv] -> (match field_of recv "X" with Some x -> FOk x | None -> FPanic)
   | (21 | 23 | 26), VPtr (_, _, None) :: _ -> FPanic   (* a value-receiver method called through a nil pointer panics in Go *)
   | 21, [_] -> FOk (VStr (str_of_ascii "hello"))
